@@ -380,6 +380,32 @@ def check_artefacts(b, text, A, E, o, tmpdir, w, bad, must_fail):
             E1 = E1[:-1]
         A2 = [l for l in A1 if not any(r in l for r in rem)]
         E2 = [l for l in E1 if not any(r in l for r in rem)]
+        if len(A2) != len(E2) and not o.get('preprocess') and not rem:
+            # different numbers of lines: the comparison walks the two texts side by side, so the pair differs on the
+            # side-by-side lines that carry an unexcused difference and on the lines one text has beyond the other
+            n0 = min(len(A2), len(E2))
+            nrm = norm_fn(o.get('lstrip'), o.get('rstrip'))
+            subs, pats = o.get('ignore_substrings') or [], o.get('ignore_patterns') or []
+            unexc, undecided = 0, False
+            for a, e in zip(A2[:n0], E2[:n0]):
+                if nrm(a) == nrm(e) or any(x in e for x in subs):
+                    continue
+                if strict_pattern_equiv(a, e, pats):
+                    if len(a) != len(e):
+                        undecided = True      # the recorded C04 finding (matched parts of unequal length): not judged again here
+                    continue
+                if pattern_equiv(a, e, pats) or pattern_equiv(nrm(a), nrm(e), pats):
+                    undecided = True
+                    continue
+                unexc += 1
+            if not undecided:
+                got = sum(1 for x, y in zip(pa, pe) if x != y) + abs(len(pa) - len(pe))
+                want = unexc + abs(len(A2) - len(E2))
+                b.check('C15.post-processed-pair-differs-exactly-on-unexcused-lines', got == want,
+                        dict(w, post_actual=pa, post_expected=pe),
+                        'texts of %d and %d lines: the post-processed files differ at %d places; %d side-by-side lines '
+                        'carry an unexcused difference and %d lines have no counterpart'
+                        % (len(A2), len(E2), got, unexc, abs(len(A2) - len(E2))))
         if len(A2) == len(E2) and not o.get('preprocess') and len(pa) == len(pe):
             ndiff = sum(1 for x, y in zip(pa, pe) if x != y)
             n = norm_fn(o.get('lstrip'), o.get('rstrip'))
